@@ -65,7 +65,7 @@ theorem udp4_wf {src dst : Bytes} {sport dport ttl : Nat} (hs : src.length = 4) 
     (magic ++ [byte 0] ++ be16 (udp4Id ttl)) (by simp [be16])
   unfold wfUdp4 Build.udp4
   simp only [Bool.and_eq_true]
-  refine ⟨⟨⟨⟨⟨?_, ?_⟩, ?_⟩, ?_⟩, ?_⟩, ?_⟩
+  refine ⟨⟨⟨⟨?_, ?_⟩, ?_⟩, ?_⟩, ?_⟩
   · exact wfIp4_build hs hd (by simp [be16, magic]) (by omega) httl (by omega)
   · unfold l4ck4
     rw [drop20_build _ _ _ _ _ _ _ _ _ hs hd, length_build _ _ _ _ _ _ _ _ _ hs hd]
@@ -218,7 +218,7 @@ theorem udp6_wf {src dst : Bytes} {sport dport ttl : Nat} (hs : src.length = 16)
     intro ck; simp [be16, repeatMagic_length]; omega
   unfold wfUdp6 Build.udp6
   simp only [Bool.and_eq_true]
-  refine ⟨⟨⟨⟨⟨?_, ?_⟩, ?_⟩, ?_⟩, ?_⟩, ?_⟩
+  refine ⟨⟨⟨⟨?_, ?_⟩, ?_⟩, ?_⟩, ?_⟩
   · exact wfIp6_build hs hd (by rw [hseg]; rfl) (by unfold udp6Id; omega) httl (by omega)
   · unfold l4ck6
     rw [drop40_build _ _ _ _ _ _ hs hd, length_build6 _ _ _ _ _ _ hs hd, hseg]
@@ -238,6 +238,5 @@ theorem udp6_wf {src dst : Bytes} {sport dport ttl : Nat} (hs : src.length = 16)
     obtain ⟨b0, b1, b2, b3, b4, b5, b6, b7, b8, b9, b10, b11, b12, b13, b14, b15, rfl⟩ := len16 hd
     simp [ip6Header, be16, u8, u16, byte_toNat, udp6Id]
     rw [byte_toNat (by omega), byte_toNat (by omega)]; omega
-  · rw [length_build6 _ _ _ _ _ _ hs hd, hseg]; simp
 
 end TRV.Proofs
